@@ -67,7 +67,7 @@ def carry_kernels(crate):
                 probs += _check_carry_var(b, cl, uses, mul=(b.trait == "Mul"))
         else:
             probs += _check_overflowing_style(b, steps)
-        probs += _every_iteration_steps(b, [s[0] for s in steps])
+        probs += _every_iteration_steps(b, [s[0] for s in steps], steps)
         res.append((b, b.key, "violation" if probs else "pass",
                     "; ".join(dict.fromkeys(probs)) if probs else
                     "%d word steps, carry threaded (%s style), performed on every iteration of their loop"
@@ -75,7 +75,32 @@ def carry_kernels(crate):
     return res
 
 
-def _every_iteration_steps(b, step_blocks):
+def _idle_exit(b, body, ent, sblk, step):
+    """the only ways out of the loop before the step are branches taken when the carry is zero, in a loop whose step adds a
+    zero word (`if carry == 0 { break }` in the ripple over the upper words): the skipped steps are cadd(w, 0, 0) = identity"""
+    if step is None or step[1] != "c":
+        return False
+    bb, style, c, e, t = step
+    if not (is_call(e, ("cadd", "csub")) and len(e[3]) == 3 and _is_zero_const(e[3][1])):
+        return False
+    reach = b.reach_avoiding([ent], avoid_blocks=[sblk])
+    exits = 0
+    for sb, cond, ts, fs in guard.cond_edges(b):
+        if sb not in reach or sb not in body:
+            continue
+        for taken, succ in ((True, ts), (False, fs)):
+            if succ in body:
+                continue
+            if _is_panic_path(b, succ):
+                continue
+            exits += 1
+            rels = guard.relations_on_edge(cond, taken)
+            if not any(op == "Eq" and x == c and _is_zero_const(y) for op, x, y in rels):
+                return False
+    return exits > 0
+
+
+def _every_iteration_steps(b, step_blocks, steps=None):
     """each word step is executed on every iteration of its innermost loop: no data-dependent `break` / `continue`
     can skip it (a skipped step drops a partial product or a carry)"""
     probs = []
@@ -117,6 +142,9 @@ def _every_iteration_steps(b, step_blocks):
             if hdr in reach2:
                 probs.append("an iteration of the word loop can return to the loop header without performing the word step (`continue`/conditional skip)")
             elif any((x not in body) for x in reach2 if b.term(x)["t"] != "unreachable" and not _is_panic_path(b, x)):
+                st = next((s_ for s_ in (steps or []) if s_[0] == sblk), None)
+                if _idle_exit(b, body, ent, sblk, st):
+                    continue
                 probs.append("the word loop can be left early without performing the word step (`break` on a data-dependent condition)")
     return probs
 
@@ -607,6 +635,28 @@ def length_effects(crate):
                     pass  # in-place kernel (mut self): covered by the `unchanged` rule below
                 elif b.loops():
                     res.append((b, "%s|LEN" % b.key, "violation", "%s: no length is stored or built" % desc))
+                elif desc.startswith("conversion between implementations"):
+                    # the result is obtained from another conversion / constructor: its length is that callee's business only
+                    # when the callee is handed the source itself; anything else (a slice of its words, a later conditional
+                    # resize) needs the callee's length effect composed with this body's arithmetic - not decided here
+                    src = P(b.local_name(1))
+                    ret = b.return_expr()
+                    alts = ret[2] if ret[0] == "phi" else (ret,)
+                    def whole(a):
+                        a = mir.strip_casts(a)
+                        while is_call(a, ("from", "into", "try_from", "try_into", "clone", "unwrap", "expect", "to_owned")) and a[3]:
+                            a = mir.strip_casts(a[3][0])
+                        a = _strip_refs(a)
+                        if a[0] == "field" and a[2] == "0" and a[1][0] == "variant":
+                            a = _strip_refs(a[1][1])          # the payload of the source's current variant is the source
+                        return a == src
+                    touched = [ev for ev in evs if ev.kind == "mcall" and ev.name in LEN_CHANGING_CALLS]
+                    if all(whole(a) for a in alts) and not touched:
+                        res.append((b, "%s|LEN delegated" % b.key, "pass", "%s: delegates to another conversion of the whole source" % desc))
+                    else:
+                        res.append((b, "%s|LEN delegated" % b.key, "undecided",
+                                    "%s: the result is assembled from other conversions / resize calls (%s); its length is not decided here"
+                                    % (desc, ", ".join(sorted({ev.name for ev in touched})) or show(ret)[:60])))
             seen = set()
             for kind, e, ev in items:
                 key = "%s|LEN %s %s" % (b.key, kind, show(e))
@@ -771,6 +821,49 @@ def read_protocol(crate):
     return res
 
 
+def _digit_class(crate, b, radix):
+    """how the parser decides that a character is a digit of the given radix: char::to_digit(radix) (directly or through a
+    helper introduced later, seen through by inlining), or - for binary - a match on exactly '0' | '1'. A classifier that
+    alters the character's code with a constant (`c as u8 | 0x20`) before testing it is a violation: code points outside
+    the digit set fold onto digits. Anything else is a hand-written classifier this rule does not read: undecided."""
+    pool = [b.e_call(t) for bb, t, fn in b.iter_calls()]
+    radices = []
+    for e in pool:
+        for x in walk(e):
+            if is_call(x, "to_digit") and len(x[3]) == 2:
+                radices.append(x[3][1])
+    if radices:
+        if all(r == ("int", radix) for r in radices):
+            return "pass", "digits classified by char::to_digit(%d)" % radix
+        return "violation", "digits are classified by to_digit(%s), expected radix %d" % (", ".join(sorted({show(r) for r in radices})), radix)
+    bodies = [b]
+    for bb, t, fn in b.iter_calls():
+        h = crate.new_helper(fn)
+        if h is not None and h not in bodies:
+            bodies.append(h)
+    if radix == 2:
+        for hb in bodies:
+            for sb, t in hb.iter_switches():
+                e, m = hb.switch_cond(sb)
+                is_char = (e[0] == "field" and e[2] == "1" and e[1][0] == "iv") or \
+                    (e[0] == "param" and any(hb.local_name(l) == e[1] and hb.local_ty(l) == "char" for l in range(1, hb.arg_count + 1)))
+                if is_char:
+                    vals = sorted(v for s2, vs in m.items() for v in vs if v != "otherwise")
+                    if vals == ["48", "49"]:
+                        return "pass", "characters are matched against exactly '0' | '1'"
+                    return "violation", "binary digits are matched against code points %s, expected exactly '0' (48) and '1' (49)" % vals
+    for hb in bodies:
+        tests = [hb.switch_cond(sb)[0] for sb, t in hb.iter_switches()] + [c for _, c, _, _ in guard.cond_edges(hb)]
+        for e in tests:
+            for x in walk(e):
+                if is_bin(x, ("BitOr", "BitAnd", "BitXor")) and any(y[:1] == ("int",) for y in (x[2], x[3])) and \
+                        mir.contains(x, lambda z: isinstance(z, tuple) and (z[:1] == ("iv",) or z[:1] == ("param",))):
+                    return "violation", ("the character's code is altered (`%s`) before it is tested: code points outside the digit set "
+                                         "fold onto digits" % show(x)[:60])
+    return "undecided", "the digit classifier is hand-written in a form this rule does not read (no to_digit(%d)%s)" % (
+        radix, ", no match on '0' | '1'" if radix == 2 else "")
+
+
 def parse_protocol(crate):
     """from_binary/from_hex: InvalidFormat carries the forward enumerate() index; digit classes; capacity first"""
     res = []
@@ -808,27 +901,8 @@ def parse_protocol(crate):
             res.append((b, "%s|InvalidFormat payload" % b.key, "violation", "no InvalidFormat error is ever produced"))
         # digit classes
         key = "%s|digit class" % b.key
-        if b.name == "from_binary":
-            ok = False
-            for sb, t in b.iter_switches():
-                e, m = b.switch_cond(sb)
-                if e[0] == "field" and e[2] == "1" and e[1][0] == "iv":
-                    vals = sorted(v for s, vs in m.items() for v in vs if v != "otherwise")
-                    ok = vals == ["48", "49"]
-                    if not ok:
-                        res.append((b, key, "violation", "binary digits are matched against code points %s, expected exactly '0' (48) and '1' (49)" % vals))
-            if ok:
-                res.append((b, key, "pass", "characters are matched against exactly '0' | '1'"))
-            elif not any(r[1] == key for r in res):
-                res.append((b, key, "violation", "no match on the character found"))
-        else:
-            ok = False
-            for bb, t, fn in b.iter_calls():
-                if fn and fn["name"] == "to_digit":
-                    e = b.e_call(t)
-                    ok = e[3][1] == ("int", 16) and e[3][0][0] == "field" and e[3][0][1][0] == "iv"
-            res.append((b, key, "pass" if ok else "violation",
-                        "digits classified by char::to_digit(16)" if ok else "hex digits are not classified by to_digit(16)"))
+        v, why = _digit_class(crate, b, 2 if b.name == "from_binary" else 16)
+        res.append((b, key, v, why))
     return res
 
 
@@ -1200,8 +1274,14 @@ def kernel_coverage(crate):
         ws = [e for e in evs if e.kind == "write" and not getattr(e, "is_mask", False) and e.obj == ("param", "self")]
         heads, tails, fulls, other = [], [], [], []
         probs = []
+        unmodelled = []
         seen_iv = set()
         for w in ws:
+            if w.index is not None and w.index[0] == "iter":
+                # written through a mutable iterator whose walk the desugaring does not model (zip with a chained / mapped
+                # partner, ...): which words it visits is not decided here
+                unmodelled.append("words written through `%s`" % show(w.index[1])[:70])
+                continue
             if w.index is None or w.index[0] != "iv":
                 other.append("write not indexed by a loop variable: %s" % show(w.target)[:60])
                 continue
@@ -1235,12 +1315,15 @@ def kernel_coverage(crate):
                     if isinstance(x, tuple) and x and x[0] == "index" and field_path_of(x) == [b.local_name(2), "data"] and x[2] != w.index:
                         probs.append("rhs word index %s differs from the lhs word index" % show(x[2]))
         probs += other
-        if sorted(show(h) for h in heads) != sorted(show(t) for t in tails):
+        if sorted(show(h) for h in heads) != sorted(show(t) for t in tails) and not unmodelled:
             probs.append("common-words loops 0..min(words(self), X) for X in %s are not matched by remaining-words loops X..words(self) (found tails for %s): "
                          "the words of self above the shorter operand would not be processed"
                          % ([show(h) for h in heads], [show(t) for t in tails]))
-        if not fulls and not heads:
+        if not fulls and not heads and not unmodelled:
             probs.append("no loop covering the words of self found")
+        if unmodelled and not probs:
+            res.append((b, "%s|word coverage" % b.key, "undecided", "; ".join(dict.fromkeys(unmodelled)) + ": an iterator chain this rule does not model"))
+            continue
         res.append((b, "%s|word coverage" % b.key, "violation" if probs else "pass",
                     "; ".join(dict.fromkeys(probs)) if probs else
                     "%d full loops, %d head/tail pairs over the words of self; rhs word taken at the same index" % (len(fulls), len(heads))))
@@ -1622,6 +1705,313 @@ def positional_indices(crate):
             res.append((b, "%s|POS" % b.key, "violation", "; ".join(dict.fromkeys(bad))))
         elif n:
             res.append((b, "%s|POS" % b.key, "pass", "%d enumerate-derived word indices, none behind a filtering adaptor" % n))
+    return res
+
+
+# --------------------------------------------------------------------------------------------
+# VACUOUS: reading an operand at and above its own word count
+# --------------------------------------------------------------------------------------------
+_VAC_CONSUMERS = ("all", "any", "for_each", "map", "find", "position", "rposition", "filter", "find_map", "filter_map", "fold",
+                  "try_fold", "take_while", "skip_while", "map_while", "try_for_each")
+
+
+def _strip_refs(e):
+    while isinstance(e, tuple) and e and ((e[0] in ("deref", "ref") and len(e) == 2) or (is_call(e, ("deref", "borrow", "as_ref", "clone")) and len(e[3]) == 1)):
+        e = e[1] if e[0] in ("deref", "ref") else e[3][0]
+    return e
+
+
+def _vac_hits(lo, body_e, idx):
+    """get_int(P, idx) nodes in body_e whose operand P is exactly the one whose word count is the range's lower bound"""
+    out = []
+    lo = mir.strip_casts(lo)
+    if not (is_call(lo, "int_len") and len(lo[3]) == 1):
+        return out
+    owner = _strip_refs(lo[3][0])
+    lo_ty = lo[4][-1] if len(lo) > 4 and lo[4] else None
+    for x in walk(body_e):
+        if is_call(x, "get_int") and len(x[3]) == 2 and mir.lin_eq(x[3][1], idx) and _strip_refs(x[3][0]) == owner:
+            ty = x[4][-1] if len(x) > 4 and x[4] else None
+            if lo_ty is None or ty is None or lo_ty == ty:
+                out.append(x)
+    return out
+
+
+def vacuous_reads(crate):
+    """`(a.int_len()..b.int_len()).all(|i| a.get_int(i) ...)`: every index of the range lies at or above a's own word count,
+    where the length-masked accessor returns None (the zero extension) - whatever the test says about a's words there, it
+    says about zeros. In a comparison this is the signature of a check applied to the wrong operand: the words of the
+    *longer* operand above the shorter one's are never examined. Reported for closures handed to iterator consumers over an
+    explicit range and for `for` loops over one."""
+    res = []
+    for b in crate.bodies:
+        if b.self_family not in ("Bvf", "Bvd", "Bv") or b.kind == "Closure":
+            continue
+        bad, n = [], 0
+        for bb, t, fn in b.iter_calls():
+            if not fn:
+                continue
+            if fn["name"] in _VAC_CONSUMERS and len(t["args"]) == 2:
+                recv, clo = b.e_operand(t["args"][0]), b.e_operand(t["args"][1])
+                if clo[0] != "closure":
+                    continue
+                if recv[0] == "var" and len(recv) > 2:
+                    recv = b.init_expr(recv[2]) or recv
+                while is_call(recv, ("rev", "by_ref", "into_iter", "skip", "take", "step_by")) and recv[3]:
+                    recv = recv[3][0]
+                    if recv[0] == "var" and len(recv) > 2:
+                        recv = b.init_expr(recv[2]) or recv
+                if not (recv[0] == "agg" and recv[1] == "Range" and len(recv[3]) == 2):
+                    continue
+                sc = storage.subst_closure(crate, clo)
+                if sc is None:
+                    continue
+                body_e, cb = sc
+                if cb.arg_count < 2:
+                    continue
+                n += 1
+                idx = ("param", cb.local_name(2))
+                for x in _vac_hits(recv[3][0], body_e, idx):
+                    bad.append("`%s` is evaluated for i in %s..%s: all of these indices are at or above %s's own word count, where it reads "
+                               "as zero" % (show(x)[:50], show(recv[3][0])[:30], show(recv[3][1])[:30], show(_strip_refs(x[3][0]))))
+            elif fn["name"] == "get_int" and len(t["args"]) == 2:
+                e = b.e_call(t)
+                idxe = e[3][1] if is_call(e, "get_int") and len(e[3]) == 2 else None
+                core = idxe
+                if core is not None and core[:1] == ("iv",) and len(core) == 2:
+                    sh = b.iter_shape(core[1])
+                    if sh is not None and sh["plain_range"]:
+                        n += 1
+                        for x in _vac_hits(sh["lo"], e, core):
+                            bad.append("`%s` is evaluated in a loop starting at %s: these indices are at or above %s's own word count, "
+                                       "where it reads as zero" % (show(x)[:50], show(sh["lo"])[:30], show(_strip_refs(x[3][0]))))
+        if bad:
+            res.append((b, "%s|VACUOUS" % b.key, "violation", "; ".join(dict.fromkeys(bad))))
+        elif n:
+            res.append((b, "%s|VACUOUS" % b.key, "pass", "%d ranged word reads, none of an operand above its own word count" % n))
+    return res
+
+
+# --------------------------------------------------------------------------------------------
+# MOVEFILL: an in-place word move must clear the words it vacates
+# --------------------------------------------------------------------------------------------
+_MF_DOMAIN = (0, 1, 2, 3, 5, 64, 65, 128, 130, 200)
+
+
+class _NoValue(Exception):
+    pass
+
+
+def _mf_leaves(e, out):
+    """opaque leaves of an expression for the small-model evaluation: everything but integer literals, + - * / % min max,
+    casts, the word-count function and the unit constants"""
+    if not isinstance(e, tuple) or not e:
+        return
+    if e[0] == "int":
+        return
+    if e[0] == "assoc" and e[1] in ("BIT_UNIT", "BITS", "BYTE_UNIT", "NIBBLE_UNIT"):
+        return
+    if e[0] == "bin" and e[1] in ("Add", "Sub", "Mul", "Div", "Rem"):
+        _mf_leaves(e[2], out)
+        _mf_leaves(e[3], out)
+        return
+    if e[0] == "cast":
+        _mf_leaves(e[1], out)
+        return
+    if is_call(e, ("min", "max")) and len(e[3]) == 2:
+        _mf_leaves(e[3][0], out)
+        _mf_leaves(e[3][1], out)
+        return
+    if is_call(e, "capacity_from_bit_len") and len(e[3]) == 1:
+        _mf_leaves(e[3][0], out)
+        return
+    if e not in out:
+        out.append(e)
+
+
+def _mf_eval(e, env):
+    if e[0] == "int":
+        return e[1]
+    if e[0] == "assoc" and e[1] in ("BIT_UNIT", "BITS"):
+        return 64
+    if e[0] == "assoc" and e[1] == "BYTE_UNIT":
+        return 8
+    if e[0] == "assoc" and e[1] == "NIBBLE_UNIT":
+        return 16
+    if e[0] == "bin" and e[1] in ("Add", "Sub", "Mul", "Div", "Rem"):
+        x, y = _mf_eval(e[2], env), _mf_eval(e[3], env)
+        if e[1] == "Add":
+            return x + y
+        if e[1] == "Mul":
+            return x * y
+        if e[1] == "Sub":
+            if x < y:
+                raise _NoValue()
+            return x - y
+        if y == 0:
+            raise _NoValue()
+        return x // y if e[1] == "Div" else x % y
+    if e[0] == "cast":
+        return _mf_eval(e[1], env)
+    if is_call(e, "min") and len(e[3]) == 2:
+        return min(_mf_eval(e[3][0], env), _mf_eval(e[3][1], env))
+    if is_call(e, "max") and len(e[3]) == 2:
+        return max(_mf_eval(e[3][0], env), _mf_eval(e[3][1], env))
+    if is_call(e, "capacity_from_bit_len") and len(e[3]) == 1:
+        return (_mf_eval(e[3][0], env) + 63) // 64
+    if e in env:
+        return env[e]
+    raise _NoValue()
+
+
+_MF_OPS = {"Lt": lambda x, y: x < y, "Le": lambda x, y: x <= y, "Gt": lambda x, y: x > y, "Ge": lambda x, y: x >= y,
+           "Eq": lambda x, y: x == y, "Ne": lambda x, y: x != y}
+
+
+def _zero_fill_range(b, e):
+    """(lo, hi) of a `slice.fill(0)` / zero store over a range of self's storage, hi = None for `to the end`"""
+    if e.kind != "write" or e.obj != ("param", "self"):
+        return None
+    if e.how == "call:fill" and e.value and e.value[0] in (("int", 0),) or (e.how == "call:fill" and e.value and e.value[0][0] == "assoc" and e.value[0][1] == "ZERO"):
+        r = e.index
+        if r is None:
+            return ("int", 0), None
+        if r[0] == "agg" and r[1] == "Range" and len(r[3]) == 2:
+            return r[3][0], r[3][1]
+        if r[0] == "agg" and r[1] == "RangeTo" and len(r[3]) == 1:
+            return ("int", 0), r[3][0]
+        if r[0] == "agg" and r[1] == "RangeFrom" and len(r[3]) == 1:
+            return r[3][0], None
+        if r[0] == "agg" and r[1] == "RangeFull":
+            return ("int", 0), None
+    return None
+
+
+def move_fill(crate):
+    """`self.data.copy_within(a..b, d)` moves words in place and leaves stale copies behind: [a, d) for an upward move,
+    [d + (b - a), b) for a downward one (as far as they lie inside a..b). A shift kernel must zero exactly those words. The
+    rule looks for a zero fill after the move that covers them - by affine reasoning over the guards that dominate the
+    move - and otherwise searches small concrete values of the opaque terms (consistent with those guards) for which some
+    vacated word is left uncovered; such a model is reported as a violation, no model and no proof is undecided."""
+    from . import arith
+    res = []
+    for b in crate.bodies:
+        if b.self_family not in ("Bvf", "Bvd") or b.kind == "Closure":
+            continue
+        evs = [e for e in storage.events(b) if not getattr(e, "inlined_from", None)]
+        moves = [e for e in evs if e.kind == "write" and e.how == "call:copy_within" and e.obj == ("param", "self")]
+        if not moves:
+            continue
+        verdicts = []
+        for mv in moves:
+            vals = mv.value or ()
+            if len(vals) != 2 or vals[0][0] != "agg" or vals[0][1] != "Range" or len(vals[0][3]) != 2:
+                verdicts.append(("undecided", "copy_within(%s): source range not explicit" % ", ".join(show(v)[:30] for v in vals)))
+                continue
+            (a0, b0), d0 = vals[0][3], vals[1]
+            rels = arith._fresh_relations(b, mv.loc[0], arith._relations_at(b, mv.loc[0]))
+            fills = []
+            unknown_cover = False
+            for e in evs:
+                if e is mv or e.kind != "write" or e.obj != ("param", "self"):
+                    continue
+                if not (e.loc[0] == mv.loc[0] and e.loc > mv.loc or (e.loc[0] != mv.loc[0] and b.block_dominates(mv.loc[0], e.loc[0]))):
+                    if e.loc[0] != mv.loc[0] and not b.block_dominates(e.loc[0], mv.loc[0]) and e.loc[0] in b.reachable_from(mv.loc[0]):
+                        unknown_cover = True        # a later store on some paths only
+                    continue
+                fr = _zero_fill_range(b, e)
+                if fr is None and e.index is not None and e.index[0] == "iv":
+                    # a loop that rewrites words lo..hi (whatever it stores, they are no longer stale copies)
+                    src = b.iter_source(e.index[1])
+                    if is_call(src, "rev") and src[3]:
+                        src = src[3][0]
+                    if src[0] == "agg" and src[1] == "Range" and len(src[3]) == 2:
+                        fr = (src[3][0], src[3][1])
+                if fr is None and e.index is not None and e.index[0] == "agg" and str(e.index[1]).startswith("Range") and e.how.startswith("call:"):
+                    r = e.index
+                    fr = (r[3][0], r[3][1]) if r[1] == "Range" and len(r[3]) == 2 else (("int", 0), r[3][0]) if r[1] == "RangeTo" and len(r[3]) == 1 \
+                        else (r[3][0], None) if r[1] == "RangeFrom" and len(r[3]) == 1 else None
+                if fr is None:
+                    if getattr(e, "is_mask", False) or (e.index is not None and e.index[0] not in ("iv", "iter", "agg")):
+                        continue        # a single-word store (the top-word trim): neither a cover nor an unknown
+                    unknown_cover = True
+                    continue
+                fills.append(fr)
+
+            def le(x, y):
+                if y is None:
+                    return True
+                if x is None:
+                    return False
+                for lb in [y] + ([y[3][0], y[3][1]] if is_call(y, "max") and len(y[3]) == 2 else []):
+                    if arith._affine_le(x, lb, rels):
+                        return True
+                return False
+
+            up, down = le(a0, d0), le(d0, a0)
+            if up and down:
+                verdicts.append(("pass", "copy_within onto itself"))
+                continue
+            if not up and not down:
+                verdicts.append(("undecided", "direction of copy_within(%s.., %s) is not apparent" % (show(a0)[:30], show(d0)[:30])))
+                continue
+            if up:
+                lo_need, hi_alts = a0, (d0, b0)                         # vacated: [a, min(d, b))
+            else:
+                width = ("bin", "Sub", b0, a0)
+                lo_alts = (("bin", "Add", d0, width), a0)              # vacated: [max(d + (b - a), a), b)
+            proven = False
+            for f0, f1 in fills:
+                if up and le(f0, lo_need) and any(le(h, f1) for h in hi_alts):
+                    proven = True
+                if down and le(b0, f1) and any(le(f0, l) for l in lo_alts):
+                    proven = True
+            if proven:
+                verdicts.append(("pass", "the words vacated by copy_within(%s..%s, %s) are zero-filled" % (show(a0)[:30], show(b0)[:30], show(d0)[:30])))
+                continue
+            # small-model search
+            leaves = []
+            for x in [a0, b0, d0] + [y for f in fills for y in f if y is not None] + [z for op, l, r in rels for z in (l, r)]:
+                _mf_leaves(mir.strip_casts(x), leaves)
+            model = None
+            if len(leaves) <= 5 and not unknown_cover:
+                import itertools
+                for combo in itertools.product(_MF_DOMAIN, repeat=len(leaves)):
+                    env = dict(zip(leaves, combo))
+                    try:
+                        ok = True
+                        for op, l, r in rels:
+                            if op in _MF_OPS and not _MF_OPS[op](_mf_eval(mir.strip_casts(l), env), _mf_eval(mir.strip_casts(r), env)):
+                                ok = False
+                                break
+                        if not ok:
+                            continue
+                        av, bv, dv = _mf_eval(a0, env), _mf_eval(b0, env), _mf_eval(d0, env)
+                        if bv < av or (not up and dv > av) or (up and dv < av):
+                            continue
+                        vac = set(range(av, min(dv, bv))) if up else set(range(max(dv + (bv - av), av), bv))
+                        moved_to = set(range(dv, dv + (bv - av)))
+                        vac -= moved_to
+                        for f0, f1 in fills:
+                            fv0 = _mf_eval(f0, env)
+                            fv1 = _mf_eval(f1, env) if f1 is not None else 10 ** 6
+                            vac -= set(range(fv0, fv1))
+                        if vac:
+                            model = (env, sorted(vac)[:3], av, bv, dv)
+                            break
+                    except _NoValue:
+                        continue
+            if model is not None:
+                env, left, av, bv, dv = model
+                verdicts.append(("violation", "copy_within(%s..%s, %s) leaves stale words behind that no zero fill after it covers: e.g. with %s the move "
+                                 "is %d..%d -> %d and word(s) %s keep their old content (zero fills after the move: %s)"
+                                 % (show(a0)[:40], show(b0)[:60], show(d0)[:40], ", ".join("%s = %d" % (show(k)[:30], v) for k, v in env.items()),
+                                    av, bv, dv, left, "; ".join("[%s, %s)" % (show(f0)[:30], show(f1)[:30] if f1 is not None else "end") for f0, f1 in fills) or "none")))
+            else:
+                verdicts.append(("undecided", "could neither prove nor refute that the words vacated by copy_within(%s..%s, %s) are cleared"
+                                 % (show(a0)[:30], show(b0)[:30], show(d0)[:30])))
+        worst = "violation" if any(v == "violation" for v, _ in verdicts) else "undecided" if any(v == "undecided" for v, _ in verdicts) else "pass"
+        res.append((b, "%s|MOVEFILL" % b.key, worst, "; ".join(m for v, m in verdicts if v == worst)))
     return res
 
 
